@@ -4,6 +4,7 @@ CONSTANTS
   SMRoles <- LifeRoles
   SMKeys <- GKeys
   SMDamage <- LifeDamage
+  SMDurs <- LifeDurs
   SMJunk <- LifeJunk
 INVARIANT Emit
 CHECK_DEADLOCK FALSE
